@@ -953,7 +953,8 @@ structure StructSt where
   cur : GV
   shadows : List Str
 
-/-- `byGoName`: reads fall back to reflect FieldByName (type_go_struct.go:44), which also finds `json:"-"` fields -/
+/-- `byGoName`: reads AND writes fall back to reflect FieldByName (type_go_struct.go getValue / setValue), which also
+    finds `json:"-"` fields -/
 def structStep (L : Leaf) (byGoName : Bool) (st : GT) (s : StructSt) : TOp → StructSt × TObs
   | .jsRead name =>                                            -- goStructGetOwnProperty
     (s, match (if byGoName then structGetPath st name else fieldIndexByName st name) with
@@ -961,8 +962,8 @@ def structStep (L : Leaf) (byGoName : Bool) (st : GT) (s : StructSt) : TOp → S
         | none => if s.shadows.contains name then .shadowRead else .undef)
   | .goRead p => (s, match gvAt s.cur p with | some g => .val g | none => .undef)
   | .goWrite p x => ({ s with cur := gvSetAt s.cur p x }, .unit)
-  | .jsWrite name v =>                                         -- goStructPut → setValue (l.63)
-    match fieldIndexByName st name with
+  | .jsWrite name v =>                                         -- goStructPut → setValue: the same resolution as reads
+    match (if byGoName then structGetPath st name else fieldIndexByName st name) with
     | none => ({ s with shadows := name :: s.shadows }, .shadow)
     | some p =>
       match typeAt st.base p with
@@ -1176,7 +1177,7 @@ def zooModel : List (String × String) :=
   [("byval_struct_read", "1"),
    ("byval_struct_write", "!throw:TypeError"),
    ("nilptr_embedded_read", "undefined,false|go:true"),
-   ("nilptr_embedded_write", "z|go:true"),
+   ("nilptr_embedded_write", "z|go:false"),
    ("defined_int", "main.zMyInt:5"),
    ("defined_int_from_float", "main.zMyInt:5"),
    ("defined_u8_overflow", "!throw:RangeError"),
@@ -1195,10 +1196,10 @@ def zooModel : List (String × String) :=
    ("slice_field_write", "1,9,3|go:[1 9 3]"),
    ("shadowed_field", "inner,z|go:outer,z"),
    ("promoted_ptr_read", "ia,0,0|go:0,0,ia"),
-   ("promoted_ptr_write", "ia|go:0,0,ia"),
-   ("unexported_embedded_write", "0|go:0,0,ia"),
-   ("dash_field_write", "0|go:0,0,ia"),
-   ("keys_after_dropped_writes", "A,Skip,Skip,U,ZIn|go:0,0,ia"),
+   ("promoted_ptr_write", "q|go:0,0,q"),
+   ("unexported_embedded_write", "5|go:5,0,ia"),
+   ("dash_field_write", "4|go:0,4,ia"),
+   ("keys_after_dropped_writes", "Skip,ZIn|go:5,4,q"),
    ("struct_keys", "Skip,ZIn|go:0,0,ia"),
    ("int_key_plain", "1,1,5,undefined,true,0,16|go:map[0:5 16:1]"),
    ("int_key_alias_hex", "undefined,false|go:map[0:5 16:1]"),
